@@ -254,6 +254,27 @@ class Repo(object):
             with open(p, encoding='utf-8', errors='replace') as fh: src = fh.read()
           except OSError: continue
           files.append((rel, p, src, set(_re.findall(r'[A-Za-z_][A-Za-z0-9_]*', src)), set(_re.findall(r'\bdef\s+([A-Za-z_][A-Za-z0-9_]*)', src))))
+    # N0m: consistently renamed private members get their reference names back (see norm.member_renames) before anything else
+    # looks at the sources - identifiers are rewritten in the text, line numbers stay
+    self.member_renames = {}
+    if normalize:
+      from . import norm as _norm
+      trees_ = {}
+      for rel, p, src, toks, dfs in files:
+        try: trees_[rel] = ast.parse(src)
+        except SyntaxError: pass
+      try: self.member_renames = _norm.member_renames(trees_)
+      except Exception: self.member_renames = {}
+      if self.member_renames:
+        pat_ = _re.compile(r'\b(' + '|'.join(_re.escape(k) for k in sorted(self.member_renames, key=len, reverse=True)) + r')\b')
+        files2 = []
+        for rel, p, src, toks, dfs in files:
+          if toks & set(self.member_renames):
+            src = pat_.sub(lambda m_: self.member_renames[m_.group(1)], src)
+            toks = set(_re.findall(r'[A-Za-z_][A-Za-z0-9_]*', src)); dfs = set(_re.findall(r'\bdef\s+([A-Za-z_][A-Za-z0-9_]*)', src))
+          files2.append((rel, p, src, toks, dfs))
+        files = files2
+        self.norm_stats['member_renames'] = dict(self.member_renames)
     self.mentions = {}
     self.defcount = {}
     for rel, p, src, toks, dfs in files:
